@@ -12,6 +12,8 @@ include!(concat!(env!("OUT_DIR"), "/subject_mods.rs"));
 
 pub mod clock;
 pub mod common;
+pub mod engine_b;
+pub mod engine_f;
 pub mod engine_i;
 pub mod engine_p;
 pub mod engine_w;
@@ -106,6 +108,7 @@ fn run_job(job: &Job, thorough: bool, threads: usize, deadline: Instant, seed: u
     };
     match job {
         Job::W { cfg, bound, .. } => from_explore::<engine_w::W>(cfg.name.clone(), "W", *bound, explore::explore::<engine_w::W>(cfg, *bound, &limits)),
+        Job::B { cfg, bound } => from_explore::<engine_b::B>(cfg.name.clone(), "B", *bound, explore::explore::<engine_b::B>(cfg, *bound, &limits)),
         Job::P { cfg, bound } => from_explore::<engine_p::P>(cfg.name.clone(), "P", *bound, explore::explore::<engine_p::P>(cfg, *bound, &limits)),
         Job::I { name, run } => {
             let rep = run(thorough, threads);
@@ -346,7 +349,7 @@ fn run_jobs(jobs: &[Job], thorough: bool, t0: Instant, seed: u64) -> Vec<JobResu
     let deadline = t0 + cap;
     let ncpu = std::thread::available_parallelism().map(|n| n.get()).unwrap_or(8).min(16);
     // small jobs: a pool of single-threaded explorers; big jobs: one after another on all cores
-    let (big, small): (Vec<&Job>, Vec<&Job>) = jobs.iter().partition(|j| matches!(j, Job::W { big: true, .. } | Job::I { .. } | Job::Other { .. }));
+    let (big, small): (Vec<&Job>, Vec<&Job>) = jobs.iter().partition(|j| matches!(j, Job::W { big: true, .. } | Job::I { .. } | Job::Other { .. } | Job::B { .. }));
     let results: Mutex<Vec<JobResult>> = Mutex::new(Vec::new());
     {
         let queue: Mutex<Vec<&Job>> = Mutex::new(small.into_iter().rev().collect());
